@@ -81,6 +81,16 @@ Qed.
 Lemma nth_error_lt {A} (l : list A) n r : nth_error l n = Some r -> n < length l.
 Proof. intro H; apply nth_error_Some; congruence. Qed.
 
+Lemma nth_error_snoc {A} (l : list A) x n r :
+  nth_error (l ++ [x]) n = Some r -> (n < length l /\ nth_error l n = Some r) \/ (n = length l /\ r = x).
+Proof.
+  intros H. destruct (lt_dec n (length l)) as [Hl|Hl].
+  - rewrite nth_error_app1 in H by auto. auto.
+  - rewrite nth_error_app2 in H by lia. destruct (n - length l) as [|k] eqn:Ek.
+    + cbn in H. inversion H. right. split; auto. lia.
+    + cbn in H. destruct k; discriminate.
+Qed.
+
 Lemma Forall2_nth_l {A B} (P : A -> B -> Prop) l l' n a :
   Forall2 P l l' -> nth_error l n = Some a -> exists b, nth_error l' n = Some b /\ P a b.
 Proof.
@@ -211,27 +221,30 @@ Qed.
 Definition Kinv (L : ledger) : Prop :=
   wf_lcs (lcs L) /\
   (forall c r, nth_error (lcs L) c = Some r -> incl (lc_kept r) (lc_asked r)) /\
-  (forall o r, nth_error (los L) o = Some r -> incl (lo_kept r) (lo_asked r)).
+  (forall o r, nth_error (los L) o = Some r -> incl (lo_kept r) (lo_asked r)) /\
+  (forall c r, nth_error (lcs L) c = Some r -> incl (lc_okept r) (lc_oasked r)).
 
 Lemma fresh_now_incl g L c l : incl (fresh_now g L c l) l.
 Proof. intros x H. unfold fresh_now in H. apply filter_In in H. tauto. Qed.
 
 Lemma Kinv_set_cls L c r r' :
   Kinv L -> nth_error (lcs L) c = Some r -> lc_bases r' = lc_bases r -> incl (lc_kept r') (lc_asked r') ->
+  incl (lc_okept r') (lc_oasked r') ->
   Kinv (lset_cls L c r').
 Proof.
-  intros [W [K1 K2]] E Hb Hk. unfold lset_cls. split; [|split]; cbn.
+  intros [W [K1 [K2 K3]]] E Hb Hk Ho. unfold lset_cls. split; [|split; [|split]]; cbn.
   - intros d rd b Hd Hin. apply nth_error_upd_inv in Hd. destruct Hd as [[-> [-> _]]|[_ Hd]].
     + rewrite Hb in Hin. eapply W; eauto.
     + eapply W; eauto.
   - intros d rd Hd. apply nth_error_upd_inv in Hd. destruct Hd as [[-> [-> _]]|[_ Hd]]; eauto.
   - auto.
+  - intros d rd Hd. apply nth_error_upd_inv in Hd. destruct Hd as [[-> [-> _]]|[_ Hd]]; eauto.
 Qed.
 
 Lemma Kinv_set_obj L o r' :
   Kinv L -> incl (lo_kept r') (lo_asked r') -> Kinv (lset_obj L o r').
 Proof.
-  intros [W [K1 K2]] Hk. unfold lset_obj. split; [|split]; cbn; auto.
+  intros [W [K1 [K2 K3]]] Hk. unfold lset_obj. split; [|split; [|split]]; cbn; auto.
   intros d rd Hd. apply nth_error_upd_inv in Hd. destruct Hd as [[-> [-> _]]|[_ Hd]]; eauto.
 Qed.
 
@@ -244,48 +257,45 @@ Proof.
   intros K H. unfold l_object. destruct t as [o|c].
   - destruct (nth_error (los L) o) as [r|] eqn:E; auto. destruct (lo_live r); auto.
     apply Kinv_set_obj; auto. cbn. intros x Hx. apply fresh_now_incl in Hx. revert x Hx.
-    apply H. destruct K as [_ [_ K2]]. eauto.
+    apply H. destruct K as [_ [_ [K2 _]]]. eauto.
   - destruct (nth_error (lcs L) c) as [r|] eqn:E; auto.
-    eapply Kinv_set_cls; eauto. cbn. destruct K as [_ [K1 _]]. eauto.
+    eapply Kinv_set_cls; eauto; cbn [lc_kept lc_asked lc_okept lc_oasked].
+    + destruct K as [_ [K1 _]]. eauto.
+    + intros x Hx. apply filter_In in Hx. destruct Hx as [Hx _]. revert x Hx. apply H.
+      destruct K as [_ [_ [_ K3]]]. eauto.
 Qed.
 
 Lemma Kinv_l_declare g L c l : Kinv L -> Kinv (l_declare g L c l).
 Proof.
   intros K. unfold l_declare. destruct (nth_error (lcs L) c) as [r|] eqn:E; auto.
-  eapply Kinv_set_cls; eauto. cbn [lc_kept lc_asked]. destruct K as [_ [K1 _]].
-  apply incl_app; [apply incl_appl; eauto|apply incl_appr; apply fresh_now_incl].
+  eapply Kinv_set_cls; eauto; cbn [lc_kept lc_asked lc_okept lc_oasked].
+  - destruct K as [_ [K1 _]].
+    apply incl_app; [apply incl_appl; eauto|apply incl_appr; apply fresh_now_incl].
+  - destruct K as [_ [_ [_ K3]]]. eauto.
 Qed.
 
 Lemma Kinv_l_only L c l : Kinv L -> Kinv (l_only L c l).
 Proof.
   intros K. unfold l_only. destruct (nth_error (lcs L) c) as [r|] eqn:E; auto.
-  eapply Kinv_set_cls; eauto. cbn. apply incl_refl.
+  eapply Kinv_set_cls; eauto; cbn [lc_kept lc_asked lc_okept lc_oasked].
+  - apply incl_refl.
+  - destruct K as [_ [_ [_ K3]]]. eauto.
 Qed.
 
 Lemma Kinv_step g L o : Kinv L -> Kinv (lstep g L o).
 Proof.
   intros K. destruct o; cbn [lstep].
-  - (* NewClass *) destruct K as [W [K1 K2]]. split; [|split]; cbn; auto.
-    + intros c r b Hc Hin. destruct (lt_dec c (length (lcs L))) as [Hl|Hl].
-      * rewrite nth_error_app1 in Hc by auto. eapply W; eauto.
-      * rewrite nth_error_app2 in Hc by lia. destruct (c - length (lcs L)) as [|k] eqn:Ek.
-        -- cbn in Hc. inversion Hc; subst r. cbn in Hin. apply filter_In in Hin.
-           destruct Hin as [_ Hin]. apply Nat.ltb_lt in Hin. lia.
-        -- cbn in Hc. destruct k; discriminate.
-    + intros c r Hc. destruct (lt_dec c (length (lcs L))) as [Hl|Hl].
-      * rewrite nth_error_app1 in Hc by auto. eauto.
-      * rewrite nth_error_app2 in Hc by lia. destruct (c - length (lcs L)) as [|k].
-        -- cbn in Hc. inversion Hc; subst r. cbn. apply incl_refl.
-        -- cbn in Hc. destruct k; discriminate.
+  - (* NewClass *) destruct K as [W [K1 [K2 K3]]]. split; [|split; [|split]]; cbn; auto.
+    + intros c r b Hc Hin. apply nth_error_snoc in Hc. destruct Hc as [[_ Hc]|[-> ->]].
+      * eapply W; eauto.
+      * cbn in Hin. apply filter_In in Hin. destruct Hin as [_ Hin]. apply Nat.ltb_lt in Hin. lia.
+    + intros c r Hc. apply nth_error_snoc in Hc. destruct Hc as [[_ Hc]|[-> ->]]; eauto. cbn. apply incl_refl.
+    + intros c r Hc. apply nth_error_snoc in Hc. destruct Hc as [[_ Hc]|[-> ->]]; eauto. cbn. apply incl_refl.
   - (* NewInstance *) destruct (Nat.ltb c (length (lcs L))); auto.
-    destruct K as [W [K1 K2]]. split; [|split]; cbn; auto.
-    intros o r Ho. destruct (lt_dec o (length (los L))) as [Hl|Hl].
-    + rewrite nth_error_app1 in Ho by auto. eauto.
-    + rewrite nth_error_app2 in Ho by lia. destruct (o - length (los L)) as [|k].
-      * cbn in Ho. inversion Ho; subst r. cbn. apply incl_refl.
-      * cbn in Ho. destruct k; discriminate.
+    destruct K as [W [K1 [K2 K3]]]. split; [|split; [|split]]; cbn; auto.
+    intros o r Ho. apply nth_error_snoc in Ho. destruct Ho as [[_ Ho]|[-> ->]]; eauto. cbn. apply incl_refl.
   - (* DropInstance *) destruct (nth_error (los L) o) as [r|] eqn:E; auto.
-    apply Kinv_set_obj; auto. cbn. destruct K as [_ [_ K2]]. eauto.
+    apply Kinv_set_obj; auto. cbn. destruct K as [_ [_ [K2 _]]]. eauto.
   - (* Implementer *) apply Kinv_l_declare; auto.
   - (* ImplementerOnly *) apply Kinv_l_only; auto.
   - apply Kinv_l_declare; auto.
@@ -299,7 +309,7 @@ Qed.
 
 Lemma Kinv_init : Kinv linit.
 Proof.
-  split; [|split]; cbn; intros c r; try (intros b); destruct c; discriminate.
+  split; [|split; [|split]]; cbn; intros c r; try (intros b); destruct c; discriminate.
 Qed.
 
 Lemma Kinv_fold g ops : forall L, Kinv L -> Kinv (fold_left (lstep g) ops L).
@@ -316,8 +326,9 @@ Proof.
   intros K. apply closure_incl. unfold lo_direct, hi_direct. destruct t as [o|c].
   - destruct (nth_error (los L) o) as [r|] eqn:E; [|apply incl_refl].
     apply incl_app; [apply incl_appl|apply incl_appr; apply lo_incl_hi_impl; auto].
-    destruct K as [_ [_ K2]]. eauto.
-  - apply incl_refl.
+    destruct K as [_ [_ [K2 _]]]. eauto.
+  - destruct (nth_error (lcs L) c) as [r|] eqn:E; [|apply incl_refl].
+    apply incl_app; [apply incl_appl|apply incl_appr, incl_refl]. destruct K as [_ [_ [_ K3]]]. eauto.
 Qed.
 
 (* ------------------------------------------------------------------ model: frame lemmas *)
@@ -490,7 +501,7 @@ Proof.
     destruct Hin as [Heq|Hin]; eauto. inversion Heq; subst. cbn. auto.
 Qed.
 
-Lemma Inv_direct_cls g st c args : Inv g st -> Inv g (direct_cls st c args).
+Lemma Inv_direct_cls g st c args : Inv g st -> Inv g (direct_cls g st c args).
 Proof.
   intros I. unfold direct_cls. destruct (nth_error (classes st) c) as [r|] eqn:E; auto.
   destruct I as [W I1 I2 I3]. split; cbn [classes insts cache]; rewrite ?length_upd; auto.
@@ -503,16 +514,6 @@ Qed.
 
 Lemma Inv_directly g st t args : Inv g st -> Inv g (directly g st t args).
 Proof. destruct t; cbn; [apply Inv_direct_inst|apply Inv_direct_cls]. Qed.
-
-Lemma nth_error_snoc {A} (l : list A) x n r :
-  nth_error (l ++ [x]) n = Some r -> (n < length l /\ nth_error l n = Some r) \/ (n = length l /\ r = x).
-Proof.
-  intros H. destruct (lt_dec n (length l)) as [Hl|Hl].
-  - rewrite nth_error_app1 in H by auto. auto.
-  - rewrite nth_error_app2 in H by lia. destruct (n - length l) as [|k] eqn:Ek.
-    + cbn in H. inversion H. right. split; auto. lia.
-    + cbn in H. destruct k; discriminate.
-Qed.
 
 Lemma Inv_step g st o : Inv g st -> Inv g (step true g st o).
 Proof.
@@ -547,7 +548,7 @@ Definition kept_of (r : irec) : list iface := match i_prov r with Some k => k | 
 
 Definition crel (r : crec) (l : lcls) : Prop :=
   c_bases r = lc_bases l /\ c_inherit r = lc_inherit l /\
-  same (c_decl r) (lc_kept l) /\ same (c_cprov r) (lc_oasked l).
+  same (c_decl r) (lc_kept l) /\ (same (c_cprov r) (lc_okept l) /\ meta_direct r = lc_meta l).
 Definition irel (r : irec) (l : lobj) : Prop :=
   i_cls r = lo_cls l /\ i_live r = lo_live l /\ same (kept_of r) (lo_kept l).
 Definition R (st : state) (L : ledger) : Prop :=
@@ -578,7 +579,7 @@ Proof.
   intros HR Hs. unfold class_ordered, l_declare. destruct (nth_error (classes st) c) as [r|] eqn:E.
   - destruct (Forall2_nth_l _ _ _ _ _ (proj1 HR) E) as [rl [E' [Hb [Hi [Hd Hp]]]]]. rewrite E'.
     apply R_set_class; auto.
-    split; [|split; [|split]]; cbn [c_bases c_decl c_inherit c_cprov lc_bases lc_kept lc_inherit lc_oasked]; auto.
+    split; [|split; [|split]]; cbn [c_bases c_decl c_inherit c_cprov c_meta lc_bases lc_kept lc_inherit lc_oasked lc_okept lc_meta]; auto.
     intro x; split; intro H.
     + rewrite In_dedup in H. rewrite !in_app_iff, !In_keepnew in H. rewrite fresh_now_keepnew.
       apply in_app_iff. rewrite In_keepnew. pose proof (Hs x) as Hx. rewrite in_app_iff in Hx.
@@ -610,8 +611,8 @@ Proof.
     unfold set_class. cbn [classes insts cache]. rewrite upd_upd.
     destruct HR as [H1 H2]. split; cbn [classes insts lset_cls lcs los]; auto.
     apply Forall2_upd; auto.
-    split; [|split; [|split]]; cbn [c_bases c_decl c_inherit c_cprov lc_bases lc_kept lc_inherit lc_oasked]; auto.
-    assert (Ec : cflat g (mkS (upd (classes st) c (mkC (c_bases r) [] false (c_cprov r))) (insts st)
+    split; [|split; [|split]]; cbn [c_bases c_decl c_inherit c_cprov c_meta lc_bases lc_kept lc_inherit lc_oasked lc_okept lc_meta]; auto.
+    assert (Ec : cflat g (mkS (upd (classes st) c (mkC (c_bases r) [] false (c_cprov r) (c_meta r))) (insts st)
                               (evict true (classes st) c (cache st))) c = []).
     { unfold cflat, cdirect. cbn [classes cdirect_f]. rewrite nth_error_upd_eq by auto. reflexivity. }
     rewrite Ec, !keepnew_nil, !app_nil_r. apply same_dedup.
@@ -639,13 +640,14 @@ Qed.
 
 Lemma R_direct_cls g st L c args fa fk :
   R st L ->
-  (forall rc rl, nth_error (classes st) c = Some rc -> nth_error (lcs L) c = Some rl -> same args (fa (lc_oasked rl))) ->
-  R (direct_cls st c args) (l_object g L (TCls c) fa fk).
+  (forall rc rl, nth_error (classes st) c = Some rc -> nth_error (lcs L) c = Some rl -> same args (fk (lc_okept rl))) ->
+  R (direct_cls g st c args) (l_object g L (TCls c) fa fk).
 Proof.
   intros HR Ha. unfold direct_cls, l_object. destruct (nth_error (classes st) c) as [rc|] eqn:E.
-  - destruct (Forall2_nth_l _ _ _ _ _ (proj1 HR) E) as [rl [E' [Hb [Hi [Hd Hp]]]]]. rewrite E'.
+  - destruct (Forall2_nth_l _ _ _ _ _ (proj1 HR) E) as [rl [E' [Hb [Hi [Hd [Hp Hm]]]]]]. rewrite E'.
     destruct HR as [H1 H2]. split; cbn [classes insts lset_cls lcs los]; auto.
-    apply Forall2_upd; auto. split; [|split; [|split]]; cbn; auto. apply (Ha _ _ eq_refl E').
+    apply Forall2_upd; auto. split; [|split; [|split; [|split]]]; cbn; auto.
+    rewrite Hm. apply same_filter; auto. apply (Ha _ _ eq_refl E').
   - rewrite (Forall2_nth_none _ _ _ _ (proj1 HR) E). auto.
 Qed.
 
@@ -658,7 +660,7 @@ Proof.
       unfold kept_of in Hk. destruct (i_prov ri); auto. eapply same_trans; [apply same_dedup|auto].
     + rewrite (Forall2_nth_none _ _ _ _ (proj2 HR) E). apply same_refl.
   - destruct (nth_error (classes st) c) as [rc|] eqn:E.
-    + destruct (Forall2_nth_l _ _ _ _ _ (proj1 HR) E) as [rl [E' [_ [_ [_ Hp]]]]]. rewrite E'.
+    + destruct (Forall2_nth_l _ _ _ _ _ (proj1 HR) E) as [rl [E' [_ [_ [_ [Hp _]]]]]]. rewrite E'.
       eapply same_trans; [apply same_dedup|auto].
     + rewrite (Forall2_nth_none _ _ _ _ (proj1 HR) E). apply same_refl.
 Qed.
@@ -670,7 +672,7 @@ Lemma R_directly g st L t fa fk (args : list iface) :
 Proof.
   intros HR I [Hk Ha]. destruct t as [o|c]; cbn [directly].
   - apply R_direct_inst; auto. intros ri rl E E'. unfold lo_dpb in Hk. rewrite E' in Hk. auto.
-  - apply R_direct_cls; auto. intros rc rl E E'. unfold lo_dpb in Ha. rewrite E' in Ha. auto.
+  - apply R_direct_cls; auto. intros rc rl E E'. unfold lo_dpb in Hk. rewrite E' in Hk. auto.
 Qed.
 
 Lemma R_step g st L o : R st L -> Inv g st -> R (step true g st o) (lstep g L o).
@@ -721,7 +723,8 @@ Proof.
         unfold cdirect, impl_lo. tauto.
     + rewrite (Forall2_nth_none _ _ _ _ (proj2 HR) E). apply same_refl.
   - destruct (nth_error (classes st) c) as [rc|] eqn:E.
-    + destruct (Forall2_nth_l _ _ _ _ _ (proj1 HR) E) as [rl [E' [_ [_ [_ Hp]]]]]. rewrite E'. auto.
+    + destruct (Forall2_nth_l _ _ _ _ _ (proj1 HR) E) as [rl [E' [_ [_ [_ [Hp Hm]]]]]]. rewrite E', Hm.
+      apply same_app; auto. apply same_refl.
     + rewrite (Forall2_nth_none _ _ _ _ (proj1 HR) E). apply same_refl.
 Qed.
 
@@ -771,7 +774,7 @@ Proof. split; intros; apply existsb_ext_closure. Qed.
 Definition cframe (c : cls) (st st' : state) : Prop :=
   insts st' = insts st /\
   (forall d, depends st d c = false -> cdirect st' d = cdirect st d /\ depends st' d c = false) /\
-  (forall c', spec_direct st' (TCls c') = spec_direct st (TCls c')).
+  (forall c', spec_direct st' (TCls c') = spec_direct st (TCls c') /\ dpb st' (TCls c') = dpb st (TCls c')).
 
 Lemma cframe_refl c st : cframe c st st.
 Proof. repeat split; auto. Qed.
@@ -780,18 +783,19 @@ Lemma cframe_trans c st1 st2 st3 : cframe c st1 st2 -> cframe c st2 st3 -> cfram
 Proof.
   intros [A1 [B1 C1]] [A2 [B2 C2]]. split; [congruence|split].
   - intros d Hd. destruct (B1 d Hd) as [E1 D1]. destruct (B2 d D1) as [E2 D2]. split; congruence.
-  - intros c'. rewrite C2. apply C1.
+  - intros c'. destruct (C1 c'), (C2 c'). split; congruence.
 Qed.
 
 Lemma cframe_set_class ev c st r r' :
-  nth_error (classes st) c = Some r -> c_cprov r' = c_cprov r -> cframe c st (set_class ev st c r').
+  nth_error (classes st) c = Some r -> c_cprov r' = c_cprov r -> c_meta r' = c_meta r ->
+  cframe c st (set_class ev st c r').
 Proof.
-  intros E Hp. split; [reflexivity|split].
+  intros E Hp Hm. split; [reflexivity|split].
   - intros d Hd. unfold cdirect, depends, set_class in *. cbn [classes]. split.
     + apply cdirect_f_upd; auto.
     + rewrite depends_f_upd; auto.
-  - intros c'. cbn [spec_direct set_class classes]. destruct (Nat.eq_dec c c') as [<-|Hne].
-    + rewrite nth_error_upd_eq by (eapply nth_error_lt; eauto). rewrite E. auto.
+  - intros c'. cbn [spec_direct dpb set_class classes]. destruct (Nat.eq_dec c c') as [<-|Hne].
+    + rewrite nth_error_upd_eq by (eapply nth_error_lt; eauto). rewrite E. unfold meta_direct. rewrite Hp, Hm. auto.
     + rewrite nth_error_upd_ne by auto. auto.
 Qed.
 
@@ -812,9 +816,6 @@ Proof.
   unfold class_only. destruct (nth_error (classes st) c) as [r|] eqn:E; [|apply cframe_refl].
   eapply cframe_trans; [|apply cframe_class_ordered]. eapply cframe_set_class; eauto.
 Qed.
-
-Lemma dpb_cls st c : dpb st (TCls c) = dedup (spec_direct st (TCls c)).
-Proof. cbn. destruct (nth_error (classes st) c); auto. Qed.
 
 Lemma provides_frame g st d args st1 k :
   provides g st d args = (st1, k) -> classes st1 = classes st /\ insts st1 = insts st.
@@ -837,7 +838,7 @@ Proof.
     + intros [o'|c'] Hne; unfold spec_direct, dpb, cdirect; cbn [classes insts]; rewrite ?Hc, ?Hi; auto.
       rewrite nth_error_upd_ne by congruence. auto.
   - unfold direct_cls. destruct (nth_error (classes st) c) as [r|] eqn:E; [|split; auto].
-    assert (Hd : forall f d, cdirect_f (upd (classes st) c (mkC (c_bases r) (c_decl r) (c_inherit r) args)) f d
+    assert (Hd : forall f d, cdirect_f (upd (classes st) c (mkC (c_bases r) (c_decl r) (c_inherit r) (keepnew (closure g (meta_direct r)) args) (c_meta r))) f d
                              = cdirect_f (classes st) f d)
       by (intros; eapply cdirect_f_upd_same; eauto).
     split.
@@ -869,7 +870,7 @@ Proof.
     + intros d Hd. unfold implemented, cflat. rewrite (proj1 (Fd d Hd)). auto.
     + intros o' r E Hd. unfold provided, spec_direct, dpb. rewrite Fi, E.
       rewrite (proj1 (Fd _ Hd)). auto.
-    + intros c'. rewrite !dpb_cls. unfold provided. rewrite Fc. auto.
+    + intros c'. destruct (Fc c') as [A B]. unfold provided. rewrite A. auto.
   - intros t Ht.
     assert (F : (forall d, cdirect (step ev g st o) d = cdirect st d) /\
                 (forall t', t' <> t -> spec_direct (step ev g st o) t' = spec_direct st t' /\
@@ -1096,7 +1097,7 @@ Qed.
    classImplementsOnly(C, I1); b = C(); directlyProvides(b, I0) *)
 Definition f1_graph : igraph := [[]; []].
 Definition f1_history : list op :=
-  [NewClass []; Implementer 0 [0]; NewInstance 0; DirectlyProvides (TInst 0) [0];
+  [NewClass [] None; Implementer 0 [0]; NewInstance 0; DirectlyProvides (TInst 0) [0];
    ClassImplementsOnly 0 [1]; NewInstance 0; DirectlyProvides (TInst 1) [0]].
 
 Lemma stale_cache_refuted_lemma :
